@@ -35,7 +35,7 @@ CLAIMS = {
     "C07": (
         'model_checking',
         'explicit-state BFS over call histories with an independent phase accumulator + RefSched phase-reference equality; exhaustive Ramsey grid on the emulator',
-        "All histories up to depth 3-5 over 14-21 op alphabets (shifts of 1, -0.5, 7 > 2pi, 2pi, 0 on atom subsets and bases, pulses with post-phase-shifts of either sign on global/local channels, retargets, EOM pulses) on 6 worlds (two channels on one basis, two bases, DMM configured before the first channel, two globals, and the mirror image with the local channel starting on the other atom, 3 atoms and integer qubit ids out of register order; EOM calls incl. a drift-corrected change of setpoint): per transition every (basis, atom) reference must change by exactly the op's increment (mod 2pi) and no other reference may move; every new pulse carries programmed phase + reference and starts after the latest shift of its targets. Ramsey pairs (two pi/2 pulses around a shift phi) are emulated for 29 phi values x 5 channel kinds x {phase_shift, post_phase_shift}, and for 10 phi values x 3 channel kinds with something in between (plain delay, zero-amplitude hold of 16 / 100 / 400 ns) x both protocols of the second pulse x phase-jump time {none, 200 ns} (1250 emulations): P = cos^2(phi/2) +- 1e-4. ArbitraryPhase pulses (constant and ramp phase) are in the alphabet; the accumulator takes the post-phase-shift from the op as written, not from the built Pulse. A world in which the second channel of a basis is declared mid-sequence, after phase shifts were accumulated on that basis.",
+        "All histories up to depth 3-5 over 14-21 op alphabets (shifts of 1, -0.5, 7 > 2pi, 2pi, 0 on atom subsets and bases, pulses with post-phase-shifts of either sign on global/local channels, retargets, EOM pulses) on 6 worlds (two channels on one basis, two bases, DMM configured before the first channel, two globals, and the mirror image with the local channel starting on the other atom, 3 atoms and integer qubit ids out of register order; EOM calls incl. a drift-corrected change of setpoint): per transition every (basis, atom) reference must change by exactly the op's increment (mod 2pi) and no other reference may move; every new pulse carries programmed phase + reference and starts after the latest shift of its targets. Ramsey pairs (two pi/2 pulses around a shift phi) are emulated for 29 phi values x 5 channel kinds x {phase_shift, post_phase_shift}, and for 10 phi values x 3 channel kinds with something in between (plain delay, zero-amplitude hold of 16 / 100 / 400 ns) x both protocols of the second pulse x phase-jump time {none, 200 ns} (1250 emulations): P = cos^2(phi/2) +- 1e-4. ArbitraryPhase pulses (constant and ramp phase) are in the alphabet; the accumulator takes the post-phase-shift from the op as written, not from the built Pulse. A world in which the second channel of a basis is declared mid-sequence, after phase shifts were accumulated on that basis. Every sequence of 2-3 builds of one template (concrete and mappable register, shifts before and after the first variable): references and pulse phases of each built sequence are the sum of its own shifts; earlier builds and the template stay put.",
         "EOM drift corrections are compared with the documented rule (RefSched); their physical correctness is C15's clause. Bounded depth/alphabet; phi grid.",
         'DESIGN.md §3 C07',
     ),
@@ -57,7 +57,7 @@ CLAIMS = {
     "C09": (
         'fault_enumeration',
         'explicit-state BFS over valid call histories x exhaustive invalid-call and read-only menus at every reachable state; full-snapshot equality before/after; differential rebuild oracles',
-        'Every state reachable by <= 2-4 valid calls (16-op core incl. EOM, DMM, variables, measure; XY world and a fresh sequence whose mode is still undetermined separately) is hit with each of 78 invalid calls (93 with the menus of the XY world and of a fresh, channel-less sequence) (one per failure cause and operation: durations, limits, targets, channels, names, modes incl. mode refusals of calls that carry a variable, protocols, over-long sequence via each op, foreign/unknown variables, calls after measure) and 14 read-only operations (str, sample +- modulation, draw with every flag, durations, phase refs, delay estimates, both serialisers, observers, build); a refused or read-only call must leave the full snapshot (timeline, EOM blocks, phase references, mode flags, call log) identical; every state must equal its build() copy, its switch_register(same register) copy, its switch_device(renamed identical device) copy and, up to depth 2-3, its abstract-repr round trip; every copy then receives calls of every kind (variable declaration, pulses, delays, phase shifts, align, channel declaration, measure) and the original must keep its full snapshot; finally the caller edits every list object it passed as an argument (targets, SLM qubits) and the record of calls and its replay must not follow. Attributes of the sequence that the snapshot does not know by name are carried generically, so a cache written by a read-only call is a state change. A copy that raises is named after the first prefix of the history after which it raises. Worlds: a channel-less sequence on non-reusable channels (DMM id taken by a pending SLM mask), an SLM mask on a DMM with stricter duration limits than the Global channel. Containers passed positionally and by keyword (target(qubits=[...]), config_slm_mask(qubits=[...])) and edited by the caller afterwards. A world in which every id collection is handed over as a dict view (keys()), which is a valid Collection that cannot be copied.',
+        "Every state reachable by <= 2-4 valid calls (16-op core incl. EOM, DMM, variables, measure; XY world and a fresh sequence whose mode is still undetermined separately) is hit with each of 78 invalid calls (93 with the menus of the XY world and of a fresh, channel-less sequence) (one per failure cause and operation: durations, limits, targets, channels, names, modes incl. mode refusals of calls that carry a variable, protocols, over-long sequence via each op, foreign/unknown variables, calls after measure) and 14 read-only operations (str, sample +- modulation, draw with every flag, durations, phase refs, delay estimates, both serialisers, observers, build); a refused or read-only call must leave the full snapshot (timeline, EOM blocks, phase references, mode flags, call log) identical; every state must equal its build() copy, its switch_register(same register) copy, its switch_device(renamed identical device) copy and, up to depth 2-3, its abstract-repr round trip; every copy then receives calls of every kind (variable declaration, pulses, delays, phase shifts, align, channel declaration, measure) and the original must keep its full snapshot; finally the caller edits every list object it passed as an argument (targets, SLM qubits) and the record of calls and its replay must not follow. Attributes of the sequence that the snapshot does not know by name are carried generically, so a cache written by a read-only call is a state change. A copy that raises is named after the first prefix of the history after which it raises. Worlds: a channel-less sequence on non-reusable channels (DMM id taken by a pending SLM mask), an SLM mask on a DMM with stricter duration limits than the Global channel. Containers passed positionally and by keyword (target(qubits=[...]), config_slm_mask(qubits=[...])) and edited by the caller afterwards. A world in which every id collection is handed over as a dict view (keys()), which is a valid Collection that cannot be copied. A world in which every id collection is the caller's own set, edited after the call.",
         'Known findings (non-atomic multi-step operations under max_sequence_duration, declare_channel with a bad initial target) are listed in known_findings.json. Bounded depth; fault menu as listed in mc/props/c09.py.',
         'DESIGN.md §3 C09',
     ),
@@ -127,7 +127,7 @@ CLAIMS = {
     "C16": (
         'exploration',
         'exhaustive grid (full Cartesian products) over waveform classes x durations x parameter values with oracles written from the class docstrings',
-        '1.7k (quick) / 3.6k (thorough) cases, each running 10-200 assertions: every waveform class x durations {1,2,3,4,5,10,11,100,101} x parameters {-2,-1e-3,0,1e-3,1,20} (all pairs for ramps), interpolated waveforms with 2-4 points, explicit times incl. near-coincident ones and both interpolators, composite and custom waveforms: sample count and finiteness, documented values, window area / sign / symmetry, change_duration to two other durations, scaling by {-2,-1,0.5,1,3}, division incl. by zero, negation, equality vs sample-wise closeness on both sides of the numpy.isclose tolerance (one sample / all / positive / negative / alternating samples moved by 0.4 and 3 tolerances; waveforms of both signs whose integral cancels), every index and slice for durations <= 5; from_max_val for area x max_val x beta of both signs (never exceeds, exact area, one ns shorter would exceed for windows > 16 ns), and max_val placed just above / below the peak of the d-ns window for EVERY duration d = 17..259 (thorough ..699); pulses with phases {-7,-pi,-1e-12,0,1,2pi,7,100}; invalid pulses refused; ArbitraryPhase reproduces 6 phase-waveform kinds x 6 durations at every sample through phase_modulation. Object histories: every sequence of <= 3 (thorough 4) steps over 10 uses / caller-side edits (constructor buffers, arrays returned by samples / modulated_samples / pulse waveforms) on 6 waveform objects vs a pristine object, compared on the object itself and on what is derived from it afterwards (change_duration, scaling, negation) (6.7k histories). All-zero samples / values through every waveform class.',
+        '1.7k (quick) / 3.6k (thorough) cases, each running 10-200 assertions: every waveform class x durations {1,2,3,4,5,10,11,100,101} x parameters {-2,-1e-3,0,1e-3,1,20} (all pairs for ramps), interpolated waveforms with 2-4 points, explicit times incl. near-coincident ones and both interpolators, composite and custom waveforms: sample count and finiteness, documented values, window area / sign / symmetry, change_duration to two other durations, scaling by {-2,-1,0.5,1,3}, division incl. by zero, negation, equality vs sample-wise closeness on both sides of the numpy.isclose tolerance (one sample / all / positive / negative / alternating samples moved by 0.4 and 3 tolerances; waveforms of both signs whose integral cancels), every index and slice for durations <= 5; from_max_val for area x max_val x beta of both signs (never exceeds, exact area, one ns shorter would exceed for windows > 16 ns), and max_val placed just above / below the peak of the d-ns window for EVERY duration d = 17..259 (thorough ..699); pulses with phases {-7,-pi,-1e-12,0,1,2pi,7,100}; invalid pulses refused; ArbitraryPhase reproduces 6 phase-waveform kinds x 6 durations at every sample through phase_modulation. Object histories: every sequence of <= 3 (thorough 4) steps over 10 uses / caller-side edits (constructor buffers, arrays returned by samples / modulated_samples / pulse waveforms) on 6 waveform objects vs a pristine object, compared on the object itself and on what is derived from it afterwards (change_duration, scaling, negation) (6.7k histories). All-zero samples / values through every waveform class. Phases at the floats just below / at / just above k x 2 pi (k = 1..129, thorough 1..3000), both signs, and magnitudes up to 2^70 through 5 constructor arguments: stored value inside [0, 2 pi) and equal to the exact rational remainder.',
         "Grid values only; interpolated waveforms whose points coincide after rounding are a don't-care class.",
         'DESIGN.md §3 C16',
     ),
@@ -152,7 +152,7 @@ CLAIMS = {
     "C12": (
         'exploration',
         'exhaustive boundary grid of devices x registers / layouts with an exact rational-arithmetic oracle',
-        '3461 cases: 16 devices {dimensions} x {max atoms} x {min distance} x {max radius} x 213 registers (one pair at d-1e-3, d-5e-7, d, d+1e-3, 0, 1e-7, 2e-6 along x and along a 3-4-5 direction with the violating pair at every index position, atoms at radius R-1e-3, R, R+1e-3, counts max / max+1, 3D registers, every atom order) through validate_register and Sequence(); expected accept / refuse and the exact offending pairs / atoms from Fractions; layout-based registers for fillings {0.5,1,0.4,0.45,0.57,0.35,0.29,0.58,0.07,0.7} x trap bounds x trap and atom counts around the limit (incl. exactly the maximum number of traps and products that are integers only in exact arithmetic); the atom-number limit on registers that come from a valid layout; automatic layouts on a physical device and max_connectivity registers must be accepted by their device (spacings within 1e-3 .. 5e-7 of the minimum distance on both sides); device construction (+ specs / docs rendering) for each optional parameter None / valid / boundary / invalid. Registers that already carry a foreign layout (too few / too many traps, beyond the radius, too dense, over-filled) through with_automatic_layout.',
+        '3461 cases: 16 devices {dimensions} x {max atoms} x {min distance} x {max radius} x 213 registers (one pair at d-1e-3, d-5e-7, d, d+1e-3, 0, 1e-7, 2e-6 along x and along a 3-4-5 direction with the violating pair at every index position, atoms at radius R-1e-3, R, R+1e-3, counts max / max+1, 3D registers, every atom order) through validate_register and Sequence(); expected accept / refuse and the exact offending pairs / atoms from Fractions; layout-based registers for fillings {0.5,1,0.4,0.45,0.57,0.35,0.29,0.58,0.07,0.7} x trap bounds x trap and atom counts around the limit (incl. exactly the maximum number of traps and products that are integers only in exact arithmetic); the atom-number limit on registers that come from a valid layout; automatic layouts on a physical device and max_connectivity registers must be accepted by their device (spacings within 1e-3 .. 5e-7 of the minimum distance on both sides); device construction (+ specs / docs rendering) for each optional parameter None / valid / boundary / invalid. Registers that already carry a foreign layout (too few / too many traps, beyond the radius, too dense, over-filled) through with_automatic_layout. Caller edits of the objects a layout hands out (traps_dict, coords, sorted_coords) x 3 geometries x 4 edits: verdicts of validate_layout / validate_register / Sequence / define_register before and after.',
         "Don't-care bands: distances within 1e-6 below the minimum, radii within 1e-14 relative of the maximum.",
         'DESIGN.md §3 C12',
     ),
@@ -166,35 +166,35 @@ CLAIMS = {
     "C08": (
         'exploration',
         'exhaustive program x deviation enumeration (ProgX): skeleton programs with every subset of numeric argument positions replaced by variable expressions; template.build(values) vs direct construction compared on canonical snapshots',
-        "3.8k cases: 7 skeleton programs (all waveform classes, delays, phase shifts, EOM with drift correction, DMM, index targeting, XY; 6-12 numeric positions each) x every subset of positions turned into variable expressions (14 kinds: scalar, array item, 2v, v+1, -v, v/2, v**2, abs, sqrt, sin, floor, ceil, round, nested; whole-array variables for interpolation points), every kind at every single position and every kind pair on two positions; each template is built for assignments A, B in the orders A,B,A and B,A,A, after a failed build, and compared with the same calls issued directly on evaluated values (second pass: values handed over as caller-owned arrays edited in place); the template's full snapshot (incl. stored calls) must be unchanged by every build; every subset template is also built on a MappableRegister resolved at build time (any prefix of the program concrete); every ordered pair of 17 expression kinds / 5 waveform classes over the SAME variable and constant as two arguments of one template. Mappable registers: 3 unsorted declared-id orders x every injective mapping of 1-3 ids onto 4 traps x every mapping insertion order x every index: declared order, trap positions, index-based targeting and equality with direct construction on the concrete register. Whole-array variables read through a caller-owned index list which the caller reverses after writing the template. Rounding at exact ties (round half to even) and array literals as operands (scalar x array, array x array, array + array). All operators and functions of parametrized objects (exp, log, log2, cos, tan, tanh, floor-division and modulo both ways, powers, rounding to a decimal), from_max_val constructors, literal boundary values in the calls that follow the first variable (delay 0, zero phase shift, retarget to the current target). Target-less phase shifts on templates whose build places fewer qubits than declared. Non-integral index values (x.5, x.9999999, 0.8999999999999999, negative, out of range) supplied through a variable, an item, a product, a quotient and a sum to target_index / phase_shift_index on concrete and mappable registers: the build resolves them as the direct call does.",
+        "3.8k cases: 7 skeleton programs (all waveform classes, delays, phase shifts, EOM with drift correction, DMM, index targeting, XY; 6-12 numeric positions each) x every subset of positions turned into variable expressions (14 kinds: scalar, array item, 2v, v+1, -v, v/2, v**2, abs, sqrt, sin, floor, ceil, round, nested; whole-array variables for interpolation points), every kind at every single position and every kind pair on two positions; each template is built for assignments A, B in the orders A,B,A and B,A,A, after a failed build, and compared with the same calls issued directly on evaluated values (second pass: values handed over as caller-owned arrays edited in place); the template's full snapshot (incl. stored calls) must be unchanged by every build; every subset template is also built on a MappableRegister resolved at build time (any prefix of the program concrete); every ordered pair of 17 expression kinds / 5 waveform classes over the SAME variable and constant as two arguments of one template. Mappable registers: 3 unsorted declared-id orders x every injective mapping of 1-3 ids onto 4 traps x every mapping insertion order x every index: declared order, trap positions, index-based targeting and equality with direct construction on the concrete register. Whole-array variables read through a caller-owned index list which the caller reverses after writing the template. Rounding at exact ties (round half to even) and array literals as operands (scalar x array, array x array, array + array). All operators and functions of parametrized objects (exp, log, log2, cos, tan, tanh, floor-division and modulo both ways, powers, rounding to a decimal), from_max_val constructors, literal boundary values in the calls that follow the first variable (delay 0, zero phase shift, retarget to the current target). Target-less phase shifts on templates whose build places fewer qubits than declared. Non-integral index values (x.5, x.9999999, 0.8999999999999999, negative, out of range) supplied through a variable, an item, a product, a quotient and a sum to target_index / phase_shift_index on concrete and mappable registers: the build resolves them as the direct call does. Templates built while still being written: every skeleton x every position as a plain variable (alone and with the first position) x a build with the other assignment just before each of its calls, on concrete and mappable registers; the EOM controls both beams and the requested off-detuning lies between two options.",
         'Assignments restricted to those the direct construction accepts; phase-reference entries of unmapped qubits are ignored (unobservable).',
         'DESIGN.md §3 C08',
     ),
     "C04": (
         'exploration',
         'exhaustive program x deviation enumeration (ProgX) through both codecs with a differential oracle on canonical snapshots and an independently compiled schema validator',
-        "1.2k (quick) / ~2k (thorough) programs (incl. a zero-length delay that still waits for the fall time): 5 program families covering every building operation x argument-style deviations (positional / keyword / omitted / explicit default; each alone and pairs) x registers {2D, 3D} x {plain, from a layout, mappable} x devices {inline virtual with EOM+DMM, MockDevice by name, custom physical with / without EOM} x parametrized variants (each numeric position alone and all together as variable expressions) x qubit ids {strings, integers 0..2, integers out of register order: decoded == the program written with str(id)}, plus the shared-operand expression pairs of C08. For each: document valid under the published schema (own validator) , decoding succeeds, device and register equal, decoded snapshot equal (or, when parametrized / mappable, builds for two assignments equal), encode-decode-encode is a fixpoint, measurement and variables equal, and encoding leaves the original's full snapshot (incl. call log) unchanged; abstract and legacy codecs. Custom devices that keep a built-in device's name with other specifications (physical and virtual) must come back with their own specifications. C08's skeleton templates (every expression kind at every position, incl. whole-array arguments combined with array literals) go through both codecs and must build to the same sequences. Every case runs in a freshly forked process; decoding histories (two documents with the same variable names but different sizes / types decoded one after the other) are single cases; parametrized programs x every single and pair of call-style deviations incl. keyword-only constructors; export with default values / default traps; detuning maps on every register kind. Declared channels of the still parametrized decoded sequence (derived from stored calls) equal the template's; built sequences are exported and decoded as well; SLM mask on the device's second DMM. Detuning maps whose traps are given in descending order (given order differs from layout order).",
+        "1.2k (quick) / ~2k (thorough) programs (incl. a zero-length delay that still waits for the fall time): 5 program families covering every building operation x argument-style deviations (positional / keyword / omitted / explicit default; each alone and pairs) x registers {2D, 3D} x {plain, from a layout, mappable} x devices {inline virtual with EOM+DMM, MockDevice by name, custom physical with / without EOM} x parametrized variants (each numeric position alone and all together as variable expressions) x qubit ids {strings, integers 0..2, integers out of register order: decoded == the program written with str(id)}, plus the shared-operand expression pairs of C08. For each: document valid under the published schema (own validator) , decoding succeeds, device and register equal, decoded snapshot equal (or, when parametrized / mappable, builds for two assignments equal), encode-decode-encode is a fixpoint, measurement and variables equal, and encoding leaves the original's full snapshot (incl. call log) unchanged; abstract and legacy codecs. Custom devices that keep a built-in device's name with other specifications (physical and virtual) must come back with their own specifications. C08's skeleton templates (every expression kind at every position, incl. whole-array arguments combined with array literals) go through both codecs and must build to the same sequences. Every case runs in a freshly forked process; decoding histories (two documents with the same variable names but different sizes / types decoded one after the other) are single cases; parametrized programs x every single and pair of call-style deviations incl. keyword-only constructors; export with default values / default traps; detuning maps on every register kind. Declared channels of the still parametrized decoded sequence (derived from stored calls) equal the template's; built sequences are exported and decoded as well; SLM mask on the device's second DMM. Detuning maps whose traps are given in descending order (given order differs from layout order). Mappable templates are also built, before and after the round trip, with only the first m declared ids mapped. A skeleton with a non-default interpolator given positionally (refused by the abstract codec, kept by the legacy one).",
         'Channels compared as a name-keyed map. Known finding: numpy.round expressions are not exportable.',
         'DESIGN.md §3 C04',
     ),
     "C18": (
         'exploration',
         'exhaustive program x device-pair enumeration (ProgX) with a differential snapshot oracle (strict) and the C01/C02 predicates on the new device (non-strict)',
-        '161 programs (every history of <= 2 ops over a 12-op alphabet incl. EOM with drift correction, DMM, retarget, align, phase changes; plus 4 long ones) and 15 auxiliary programs (EOM set points next to the detuning limit; the same DMM id configured twice before / after parametrization; SLM mask with default / positional / keyword DMM id before and after the first channel or pulse in Ising, XY and undetermined mode, magnetic field, measurement, variables) x 81 ordered device pairs (base <-> 28 single-parameter variants incl. a renamed identical device, to which every switch must succeed and change nothing; of clock, min duration, bandwidth, phase-jump time, retarget interval, fixed retarget time, EOM bandwidth / buffer / beams / absence, amplitude / detuning / duration limits, reusability, Rydberg level, max sequence duration, DMM bottoms; base -> 25 two-parameter variants; thorough: all 300 pairs of variants) x strict in {True, False} = 24.6k switches: strict either raises or returns an identical timeline / EOM blocks / phase references; non-strict either raises or satisfies every limit of the new device with a well-formed timeline; the original is never modified; switch_register to an equal, a moved and a re-ordered register keeps the timeline; to a MappableRegister with the same ids it is refused or keeps every stored instruction and builds to the original timeline; parametrized programs are compared after building both sides. Programs with two Global channels (Raman and Rydberg) aligned with phase shifts across the switch. Device variants with a fixed retarget time off the clock grid (with and without a minimum retarget interval).',
+        '161 programs (every history of <= 2 ops over a 12-op alphabet incl. EOM with drift correction, DMM, retarget, align, phase changes; plus 4 long ones) and 15 auxiliary programs (EOM set points next to the detuning limit; the same DMM id configured twice before / after parametrization; SLM mask with default / positional / keyword DMM id before and after the first channel or pulse in Ising, XY and undetermined mode, magnetic field, measurement, variables) x 81 ordered device pairs (base <-> 28 single-parameter variants incl. a renamed identical device, to which every switch must succeed and change nothing; of clock, min duration, bandwidth, phase-jump time, retarget interval, fixed retarget time, EOM bandwidth / buffer / beams / absence, amplitude / detuning / duration limits, reusability, Rydberg level, max sequence duration, DMM bottoms; base -> 25 two-parameter variants; thorough: all 300 pairs of variants) x strict in {True, False} = 24.6k switches: strict either raises or returns an identical timeline / EOM blocks / phase references; non-strict either raises or satisfies every limit of the new device with a well-formed timeline; the original is never modified; switch_register to an equal, a moved and a re-ordered register keeps the timeline; to a MappableRegister with the same ids it is refused or keeps every stored instruction and builds to the original timeline; parametrized programs are compared after building both sides. Programs with two Global channels (Raman and Rydberg) aligned with phase shifts across the switch. Device variants with a fixed retarget time off the clock grid (with and without a minimum retarget interval). max_sequence_duration swept through the last 14 ns of every two-op program as it plays on 5 new devices whose grids re-round the automatic waits: the non-strict switch raises or returns a sequence inside the limit.',
         "Consecutive plain delays are merged and derived DMM channel names normalised before comparing strict switches. Known findings: strict ignores min_duration, the SLM-mask DMM's bottom detuning and the off-detuning of an open, still empty EOM block. Idle periods at one off-detuning are merged, only the current phase reference is compared.",
         'DESIGN.md §3 C18',
     ),
     "C17": (
         'exploration',
         'exhaustive grids per class (optional fields default / non-default, every subset of noise types) with == and deep field-by-field comparison after the JSON round trip, plus every construction/decoding order of three instances per class with deep snapshots of the earlier ones',
-        '704 (quick) cases: 190+ noise models (every subset of the 7 noise types through each activating parameter variant, leakage) - active types exactly those set, abstract round trip equal, NoiseModel -> SimConfig -> NoiseModel preserves types and every relevant parameter; ~400 virtual devices (12 optional fields: all singles, pairs, all) x 5 channel sets (EOM with every optional field non-default, EOM controlled beams in every selection and order, DMM, default noise model, custom ids, channels / DMMs listed in reverse order) + 6 physical variants; registers 2D/3D x 6 atom orders x 3 id sets x with/without layout, layouts, detuning maps with traps in all 24 orders through a sequence; 135 emulation configs (observable sets x evaluation times x initial states x noise models) incl. operators with complex coefficients; aliasing for StateRepr / NoiseModel / VirtualDevice / Register in all 6 orders. Registers, layouts and device layouts with negative-zero / tiny negative coordinates. Physical devices whose calibrated layouts share a slug, have no slug, or list one layout twice. Effective-noise rates of exactly 0; every noise type inside emulation configurations. Boolean options of a configuration given as numpy booleans / 0 / 1. Results whose evaluation times are not short decimals (k/3, k/7, full grids) through to_abstract_repr / from_abstract_repr.',
+        '704 (quick) cases: 190+ noise models (every subset of the 7 noise types through each activating parameter variant, leakage) - active types exactly those set, abstract round trip equal, NoiseModel -> SimConfig -> NoiseModel preserves types and every relevant parameter; ~400 virtual devices (12 optional fields: all singles, pairs, all) x 5 channel sets (EOM with every optional field non-default, EOM controlled beams in every selection and order, DMM, default noise model, custom ids, channels / DMMs listed in reverse order) + 6 physical variants; registers 2D/3D x 6 atom orders x 3 id sets x with/without layout, layouts, detuning maps with traps in all 24 orders through a sequence; 135 emulation configs (observable sets x evaluation times x initial states x noise models) incl. operators with complex coefficients; aliasing for StateRepr / NoiseModel / VirtualDevice / Register in all 6 orders. Registers, layouts and device layouts with negative-zero / tiny negative coordinates. Physical devices whose calibrated layouts share a slug, have no slug, or list one layout twice. Effective-noise rates of exactly 0; every noise type inside emulation configurations. Boolean options of a configuration given as numpy booleans / 0 / 1. Results whose evaluation times are not short decimals (k/3, k/7, full grids) through to_abstract_repr / from_abstract_repr. Layouts with the same traps and different slugs (and three distinct layouts) through the public layout codec in every order.',
         'Fields excluded from == by the dataclass (short_description) are not compared; layout subclasses compared by traps+slug.',
         'DESIGN.md §3 C17',
     ),
     "C11": (
         'exploration',
         'exhaustive sweeps on the real emulators: every integer duration, programs x noise x evaluation-time settings, every basis-state tuple, and every tape of numpy.random answers (owned RNG)',
-        '67k cases (quick): every duration 4..1500 ns (thorough 12000) of a resonant pulse - legacy norm, analytic Rabi population, V2 backend returns and stores the same final state; 10 programs (incl. an idle period before a short pulse) x 7 noise configurations x 4 evaluation-time settings x sampling rates {1, 0.5, (0.1)} - every stored state normalised / unit-trace / Hermitian / positive, times ascending, V2 == legacy at equal times, zero drive keeps the state; every basis-state tuple of 1-4 atoms in each of 8 eigenbases x measurement bases as ket and density matrix -> documented bitstring through the legacy result object and the V2 state, and uniform / weighted superpositions and mixtures over all basis states -> documented distribution; every tape of RNG answers (interval interiors, both end points, rate-/rate/rate+) for 1-2 shots on 4 distributions x 4 detection-error settings against a reference function of the tape (V2 state and legacy results object); state-preparation errors: every pattern of badly prepared atoms over 2-3 runs; the legacy emulator as a stateful object: every history of <= 3 (thorough 4) configuration calls (set_initial_state x 3, set_config x 3, add_config x 3, reset_config, set_evaluation_times x 3, run, observers) on one emulator vs a fresh emulator configured with the net settings of a reference model (3.8k histories); reduced states get_state(reduce_to_basis=...) of three-level runs vs the projection of the full state. Resonant drives made of several unequal constant segments and idle periods: final population == sin^2(area/2) on the three emulator entry points. The measured (pseudo-density) state of the legacy results follows the same convention: <reads-as-1 projector> per atom for every basis incl. the leakage bases x every basis state x detection-error rates. Legacy sampled results (NoisyResults): deterministic corners (eta in {0, 1}, vanishing amplitude spread, detection rates in {0, 1}) and scripted state-preparation patterns; evaluation-time sets with times closer than one sample to the start / end / one another on both APIs; the older QutipBackend and device default noise models as further entry points. With every sample stored, the state returned for a stored time is the state of that time (known finding: first match within one sample). User-supplied initial states in every accepted form (array, Qobj, QutipState through QutipBackendV2) x overall factors (1, 2, 0.25, 3j) x supports with nothing driven: the emulated state is the normalised labelled one.',
+        "67k cases (quick): every duration 4..1500 ns (thorough 12000) of a resonant pulse - legacy norm, analytic Rabi population, V2 backend returns and stores the same final state; 10 programs (incl. an idle period before a short pulse) x 7 noise configurations x 4 evaluation-time settings x sampling rates {1, 0.5, (0.1)} - every stored state normalised / unit-trace / Hermitian / positive, times ascending, V2 == legacy at equal times, zero drive keeps the state; every basis-state tuple of 1-4 atoms in each of 8 eigenbases x measurement bases as ket and density matrix -> documented bitstring through the legacy result object and the V2 state, and uniform / weighted superpositions and mixtures over all basis states -> documented distribution; every tape of RNG answers (interval interiors, both end points, rate-/rate/rate+) for 1-2 shots on 4 distributions x 4 detection-error settings against a reference function of the tape (V2 state and legacy results object); state-preparation errors: every pattern of badly prepared atoms over 2-3 runs; the legacy emulator as a stateful object: every history of <= 3 (thorough 4) configuration calls (set_initial_state x 3, set_config x 3, add_config x 3, reset_config, set_evaluation_times x 3, run, observers) on one emulator vs a fresh emulator configured with the net settings of a reference model (3.8k histories); reduced states get_state(reduce_to_basis=...) of three-level runs vs the projection of the full state. Resonant drives made of several unequal constant segments and idle periods: final population == sin^2(area/2) on the three emulator entry points. The measured (pseudo-density) state of the legacy results follows the same convention: <reads-as-1 projector> per atom for every basis incl. the leakage bases x every basis state x detection-error rates. Legacy sampled results (NoisyResults): deterministic corners (eta in {0, 1}, vanishing amplitude spread, detection rates in {0, 1}) and scripted state-preparation patterns; evaluation-time sets with times closer than one sample to the start / end / one another on both APIs; the older QutipBackend and device default noise models as further entry points. With every sample stored, the state returned for a stored time is the state of that time (known finding: first match within one sample). User-supplied initial states in every accepted form (array, Qobj, QutipState through QutipBackendV2) x overall factors (1, 2, 0.25, 3j) x supports with nothing driven: the emulated state is the normalised labelled one. The same options through the generic EmulationConfig (sampling rate as a backend-specific extra): same final state as with the backend's own configuration class.",
         'Solver tolerances as listed in the evidence; Rabi value required within the range spanned by effective durations [T-1, T]; large-shot statistics are not decided.',
         'DESIGN.md §3 C11',
     ),
